@@ -66,6 +66,15 @@ CHECKS = {
             {"name": "dialseq", "pkg": "pkg/plugin/processor/egress", "harness": "c18", "run": "^TestVerifC18DialSequences$", "shards": 8, "shards_thorough": 16},
         ],
     },
+    "C19": {
+        "rule": "archives: every entry sequence <=2 (quick) / <=3 (thorough) over hostile names x entry types x link targets through ExtractBinary; installs: every history <=3 of installs over index version/role/content x digest x verifier through the real Install + TrustedVerifier; crash: SIGKILL / EIO / ENOSPC injected at every file-system syscall of the real state/manifest write; concurrent: every order of 2-3 VerifyIndex calls queued on the state lock",
+        "parts": [
+            {"name": "archives", "pkg": "pkg/registry", "harness": "c19", "run": "^TestVerifC19Archives$", "shards": 8, "shards_thorough": 16},
+            {"name": "installs", "pkg": "pkg/registry", "harness": "c19", "run": "^TestVerifC19Installs$", "shards": 16, "shards_thorough": 16},
+            {"name": "crash", "pkg": "pkg/registry", "harness": "c19", "run": "^TestVerifC19Crash$", "shards": 8},
+            {"name": "concurrent", "pkg": "pkg/registry", "harness": "c19", "run": "^TestVerifC19ConcurrentIndex$"},
+        ],
+    },
     "C20": {
         "rule": "every error tree up to the stated depth over the constructor alphabet; distinct = distinct tree shapes; "
                 "non-trivial = trees containing at least one wrapper around a classified node",
